@@ -119,7 +119,7 @@ Theorem references_shape mode w f fi n line col l :
   | _ => l = []
   end.
 Proof.
-  intros Hfw Hr. unfold references_at in Hr.
+  intros Hfw Hr. unfold references_at, references_of_target in Hr.
   destruct (resolve_at w f fi n line col) as [v|F g| |] eqn:Ht.
   - injection Hr as Hr. subst l. intros x [Hx|Hx]; [left; auto|right].
     apply in_map_iff in Hx. destruct Hx as [o [Hxo Ho]]. apply filter_In in Ho. destruct Ho as [Ho Hm].
@@ -128,7 +128,7 @@ Proof.
     subst x. exists fi, o. cbn. auto.
   - assert (Hgen : forall files, (forall x, In x files -> In x w) ->
         forall x, In x (flat_map (fun x0 => map (fun o => (fst x0, o_loc o))
-                     (filter (fun o => occ_matches_global w n F g (fst x0) (snd x0) o && negb (inside (g_loc g) (o_loc o)))
+                     (filter (fun o => occ_matches_global w n F g (fst x0) (snd x0) o && negb (skip_define F (g_loc g) (fst x0) (o_loc o)))
                              (fi_occs (snd x0)))) files) -> is_occurrence_of w n x).
     { intros files Hsub x Hx. apply in_flat_map in Hx. destruct Hx as [[X fx] [HX Hx]].
       apply in_map_iff in Hx. destruct Hx as [o [Hxo Ho]]. apply filter_In in Ho. destruct Ho as [Ho Hm].
@@ -211,14 +211,14 @@ Theorem highlight_is_refs_in_file w f fi n line col l h :
   references_at MHighlight w f fi n line col = Some h ->
   h = filter (fun x => beq_bytes (fst x) f) l.
 Proof.
-  intros Hnd Hin Hl Hh. unfold references_at in *. cbv zeta in Hl, Hh.
+  intros Hnd Hin Hl Hh. unfold references_at, references_of_target in *. cbv zeta in Hl, Hh.
   destruct (resolve_at w f fi n line col) as [v|F g| |] eqn:Ht.
   - injection Hl as Hl. injection Hh as Hh. subst l h.
     symmetry. apply filter_all. intros a [Ha|Ha]; [subst a; apply beq_bytes_refl|].
     apply in_map_iff in Ha. destruct Ha as [o [Ha _]]. subst a. apply beq_bytes_refl.
   - set (G := fun x : list N * fileinfo =>
                 map (fun o => (fst x, o_loc o))
-                    (filter (fun o => occ_matches_global w n F g (fst x) (snd x) o && negb (inside (g_loc g) (o_loc o)))
+                    (filter (fun o => occ_matches_global w n F g (fst x) (snd x) o && negb (skip_define F (g_loc g) (fst x) (o_loc o)))
                             (fi_occs (snd x)))) in *.
     assert (HG : filter (fun x : list N * loc => beq_bytes (fst x) f) (flat_map G w) = G (f, fi)).
     { apply (filter_flat_map_file G (fun a : list N * loc => fst a)); auto.
